@@ -237,6 +237,10 @@ def run(ctx):
     for i in range(len(heads)):
         j = (i + 1) % len(heads)
         payloads.append({"docs": [heads[i], heads[j]], "calls": [(0, "file"), (0, "file"), (1, "file"), (0, "file"), (0, "all_ids")]})
+    # degenerate documents through every entry point, alone and after another document
+    for deg in ({}, [], {"standard": "only"}):
+        payloads.append({"docs": [deg, ship[0]], "calls": [(0, "dict"), (0, "json"), (0, "file"), (1, "dict"), (0, "dict"), (0, "file"), (0, "json")]})
+        payloads.append({"docs": [ship[1], deg], "calls": [(0, "json"), (1, "dict"), (1, "json")]})
     # pipeline families: a shipped document with and without its pipelines
     for d in ship:
         if d.get("pipelines"):
@@ -309,6 +313,11 @@ def run(ctx):
     # process-level repeatability: invalid and valid family members (competing fulfillers, duplicates, cycles ...)
     xdocs = [d for docs in fams[:40 if quick else 300] for d in docs] + ship
     # faults whose error messages depend on which of several candidates is picked (competing creators, duplicates ...)
+    # pipeline faults (their messages mention types and variables)
+    import pipes
+    for i in range(60 if quick else 600):
+        s2, name, owner, desc = pipes.mutate_p(rng, only=("C08", "C09"), threads=(i % 2 == 1))
+        xdocs.append(S.render(s2, random.Random(rng.randrange(1 << 30)), "id" if name in M.FORCE_ID_SPELLING else "mixed", False, False))
     for _ in range(60 if quick else 600):
         s2, name, owner, desc = M.mutate(rng, only=("C06", "C10", "C02"))
         xdocs.append(S.render(s2, random.Random(rng.randrange(1 << 30)), "id" if name in M.FORCE_ID_SPELLING else "mixed", rng.random() < 0.5, False))
